@@ -5,3 +5,10 @@ import Props.C02
 #print axioms C02.flip_negated_sound
 #print axioms C02.boolean_bounds_sound
 #print axioms C02.constrained_range_sound
+#print axioms C02.flow_rewrite_sound
+#print axioms C02.if_continuation_sound
+#print axioms C02.swap_if_else_sound
+#print axioms C02.dead_if_sound
+#print axioms C02.unreachable_drop_sound
+#print axioms C02.trailing_continue_sound
+#print axioms C02.reorder_not_equiv
